@@ -95,7 +95,7 @@ def check_pass(ctx, label, src, pname, steps, steps_alt, memmap_by_id, reps, rep
 
 def main(ctx):
     proofs_ok = proof_gate(ctx, gen_modules=['ConstFold'])
-    n = ctx.n(70, 3000)
+    n = ctx.n(40, 2000)
     if not proofs_ok:
         n *= 3
     agree = total = 0
